@@ -115,6 +115,14 @@ def check_prec(prec, cov, what, method):
     cov = np.asarray(cov, dtype=float)
     prec = np.asarray(prec, dtype=float)
     require(prec.shape == cov.shape, '%s: precision shape %s' % (what, prec.shape), 'prec-shape')
+    if method == 'diag' and np.all(np.diag(cov) > 0):
+        # the inverse of a diagonal matrix is the matrix of reciprocals, however different the
+        # channel variances are (no conditioning argument applies)
+        want = np.diag(1.0 / np.diag(cov))
+        require(core.close(prec, want, rtol=1e-10, atol=0),
+                '%s: precision of the diagonal estimate is not its reciprocal: diag %s vs 1/var %s'
+                % (what, core._short(np.diag(prec)), core._short(np.diag(want))), 'prec-inverse:diag')
+        return True
     if np.linalg.cond(cov) > 1e6:
         return False
     p = cov.shape[0]
@@ -174,7 +182,12 @@ def residual_case(draw):
     res = fix_constant_columns(draw(gen.matrix(n, p)))
     method = draw(st.sampled_from(METHODS))
     dof = draw(st.one_of(st.none(), st.integers(1, 40)))
-    return dict(res=rescale(res, draw(unit_exp)), method=method, dof=dof)
+    res = rescale(res, draw(unit_exp))
+    if p >= 2 and draw(st.integers(0, 3)) == 0:
+        # channels recorded in different units (e.g. EEG in microvolt next to MEG in tesla)
+        ce = draw(st.lists(st.sampled_from([0, 0, -40, 25]), min_size=p, max_size=p))
+        res = [[v * 2.0 ** ce[j] for j, v in enumerate(row)] for row in res]
+    return dict(res=res, method=method, dof=dof)
 
 
 def check_residual(case):
@@ -191,7 +204,7 @@ def check_residual(case):
     scale = float(np.max(np.abs(res - res.mean(0))) ** 2) * n / (dof if dof else n - 1)
     check_estimate(est, s, method, 'cov_from_residuals', scale)
     # precision = inverse of that covariance
-    if np.linalg.cond(np.asarray(est)) < 1e6:
+    if method == 'diag' or np.linalg.cond(np.asarray(est)) < 1e6:
         prec = lib(N.prec_from_residuals, res, dof=dof, method=method, on_error='violation',
                    sig='raises:prec_from_residuals')
         check_prec(prec, est, 'prec_from_residuals', method)
